@@ -364,6 +364,17 @@ def corpus():
         ["if", ["expr", GT(V("a"), C(0))], [["assign", "a", C(-1), []], ["assign", "<state>y", V("a"), []]],
          [["assign", "a", C(5), []], ["assign", "<state>z", V("a"), []]]],
         yld(ADD(Y, Z)), STEP]))
+    # the condition is a BARE variable that the block itself reassigns (the "first time" flag idiom): the guard is the value
+    # the variable had at the if_, for the whole block and for the else branch
+    add("bare_flag_reassigned_in_block", P1([
+        ["if", ["expr", V("<p>k")], [["assign", "<p>k", C(0), []], yld(C(10), tid="boot"), ["assign", "<state>y", C(10), []]],
+         [["assign", "<state>y", ADD(Y, C(1)), []], ["assign", "<p>k", Z, []]]],
+        yld(Y), STEP]))
+    add("bare_flag_reassigned_no_else", P1([
+        ["assign", "a", Y, []],
+        ["if", ["expr", V("a")], [["assign", "a", C(0), []], ["assign", "<state>z", ADD(Z, C(1)), []],
+                                   ["if", ["expr", V("<state>z")], [["assign", "<state>z", C(0), []], ["assign", "<state>y", C(7), []]], None]], None],
+        yld(ADD(Y, Z)), STEP]))
     add("temp_reused_across_branches", P1([
         ["if", ["expr", GT(Y, C(0))], [["assign", "w", C(1), []]], [["assign", "w", C(2), []]]],
         ["assign", "<state>y", ADD(Y, V("w")), []],
@@ -381,11 +392,12 @@ def corpus():
 class ProgGen:
     def __init__(self, rng, multi_phase=True, max_ops=8, arrays=True, calls=True, loops=True,
                  float_literals=False, targets=None, call_targets=None, inputs=None, control=True,
-                 scalar_loops=False, pair_targets=None, lookups=False):
+                 scalar_loops=False, pair_targets=None, lookups=False, bare_conditions=False):
         self.rng = rng
         # opt-in (C07): two-assignee calls over these pairs whose arguments read the assignees themselves
         self.pair_targets = pair_targets
         self.lookups = lookups      # opt-in: attribute lookups z.real / z.imag / v.size
+        self.bare_conditions = bare_conditions   # opt-in: if_(<variable>) whose block reassigns the variable
         self.multi_phase = multi_phase
         self.max_ops = max_ops
         self.arrays = arrays
@@ -469,7 +481,13 @@ class ProgGen:
                     defined[tgt] = "num"
             elif r < 0.75 and depth < 3 and budget[0] > 0:
                 cform = ["expr", g.boolean(rng.choice([0, 1]))]
-                if rng.random() < 0.2:
+                bare = None
+                if self.bare_conditions and rng.random() < 0.15:
+                    nums_ = sorted(n for n in defined if defined[n] == "num" and n not in ("<t>", "<dt>"))
+                    if nums_:
+                        bare = rng.choice(nums_)
+                        cform = ["expr", V(bare)]
+                elif rng.random() < 0.2:
                     cform = ["cmp3", g.num(0), rng.choice(["<", ">", "==", "!=", "<=", ">="]), g.num(0),
                              [rng.random() < 0.3, rng.random() < 0.3]]
                     if any(f for f in cform[4]) and ("-" in str(exprdsl.build(cform[1])) + str(exprdsl.build(cform[3]))):
@@ -478,6 +496,8 @@ class ProgGen:
                 b1 = [max(1, rng.randint(1, max(1, budget[0])))]
                 budget[0] -= min(b1[0], budget[0])
                 body = self.gen_ops(d1, b1, depth + 1, phase_names)
+                if bare is not None and rng.random() < 0.7:
+                    body = [["assign", bare, rng.choice([C(0), C(1), g.num(0)]), []]] + body
                 els = None
                 d2 = dict(defined)
                 if rng.random() < 0.5 and budget[0] > 0:
